@@ -40,7 +40,7 @@ Definition regs_at (k : nat) (pl : list ev_plugin) : list (action tk_req string)
                      then match mk_plugin p with Some q => [ARegister q] | None => [] end
                      else []) pl.
 
-Definition ok_handler (ev : Z) (p : plugin) : call string := {| c_res := reply_of ev p; c_dur := 0%N |}.
+Definition ok_handler (ev : Z) (p : plugin) : call string := {| c_res := reply_of ev p; c_dur := 0%N; c_in_write := false |}.
 
 Fixpoint build_actions (k : nat) (sigma : list tk_req) (pl : list ev_plugin) : list (action tk_req string) :=
   regs_at k pl ++
@@ -111,7 +111,7 @@ Definition fault_handler (c : fault_case) (what : option (string * string)) (p :
   {| c_res := if N.eqb (p_id p) (fc_faulty c)
               then match what with None => reply_of (fc_ev c) p | Some (cls, msg) => Failed cls msg end
               else reply_of (fc_ev c) p;
-     c_dur := 0%N |}.
+     c_dur := 0%N; c_in_write := false |}.
 
 Definition obs_matches (c : fault_case) (m : observation tk_req (list string)) (o : fault_obs) : bool :=
   let not_faulty (l : list N) := filter (fun i => negb (N.eqb i (fc_faulty c))) l in
@@ -123,18 +123,33 @@ Definition obs_matches (c : fault_case) (m : observation tk_req (list string)) (
    end &&
    leqb N.eqb (not_faulty (map p_id (o_invoked m))) (not_faulty (fo_handled o)))%bool.
 
+(* a peer that stopped reading: the faulty plugin's call is stuck in the write of its request for
+   as long as the harness lets it (fc_lat), then ends with what ttrpc returned (fc_call) *)
+Definition stall_handler (c : fault_case) (p : plugin) : call string :=
+  if N.eqb (p_id p) (fc_faulty c)
+  then {| c_res := match fc_call c with None => reply_of (fc_ev c) p | Some (cls, msg) => Failed cls msg end;
+          c_dur := fc_lat c; c_in_write := true |}
+  else {| c_res := reply_of (fc_ev c) p; c_dur := 0%N; c_in_write := false |}.
+
 (* a cut or closed connection is down by the time the follow-up request starts, whether or
    not the faulted request's call already failed on it (a fault that strikes after the
    plugin's reply went through leaves the first request untouched) *)
 Definition corr_fault (c : fault_case) : bool :=
-  let s := ARequest (1%N, fc_ev c) (fault_handler c (fc_call c)) ::
+  let stalled := match fc_fault c with FStall => true | _ => false end in
+  let s := ARequest (1%N, fc_ev c) (if stalled then stall_handler c else fault_handler c (fc_call c)) ::
            match fc_fault c with
-           | FTransport _ => [ADisconnect (fc_faulty c)]
+           | FTransport _ | FStall => [ADisconnect (fc_faulty c)]
            | _ => []
            end ++
            [ARequest (2%N, fc_ev c) (fault_handler c (fc_after_call c))] in
-  match snd (tk_run model_T (fault_plugins c) s) with
-  | [m1; m2] => (obs_matches c m1 (fc_obs c) && obs_matches c m2 (fc_obs2 c))%bool
+  match snd (tk_run (if stalled then fc_T c else model_T) (fault_plugins c) s) with
+  | [m1; m2] =>
+      (obs_matches c m1 (fc_obs c) && obs_matches c m2 (fc_obs2 c) &&
+       (* the model's time for a stalled write is not cut at T: it exceeds n x T + slack exactly when
+          the observed latency does *)
+       (negb stalled ||
+        Bool.eqb (N.ltb (N.of_nat (length (fc_plugins c)) * fc_T c + fc_slack c) (o_time m1))
+                 (N.ltb (N.of_nat (length (fc_plugins c)) * fc_T c + fc_slack c) (fc_lat c))))%bool
   | _ => false
   end.
 
